@@ -304,18 +304,87 @@ theorem matcher_finds_every_state : MatcherFindsEveryState := by
   exact accel_lift r o h nb het (fh h hh).1 (fh h hh).2 hnb'.1 hnb'.2.1 hhet'.2.2.1 hhet'.2.2.2
     (matcher_finds_every_state_partial r hr o ho).1
 
-/-- one field changed: the accelerated matcher answers what the documentation says (and so does the reference matcher, by
-    `pyFound_eq_selects`) for every pair of labels of an element, and for the radical flag against the same / no label -/
-theorem matcher_isotope_radical_cross :
-    (periodicTable.all fun r => (labels r).all fun i =>
-      ((labels r).all fun j => accelFound r ⟨j, 0, false⟩ none ⟨i, 0, false⟩ (some 0) 0 0 == some (selects ⟨j, 0, false⟩ none ⟨i, 0, false⟩ (some 0))) &&
-      ([false, true].all fun ro => [false, true].all fun rq => [i, none].all fun j =>
-        accelFound r ⟨j, 0, rq⟩ none ⟨i, 0, ro⟩ (some 0) 0 0 == some (selects ⟨j, 0, rq⟩ none ⟨i, 0, ro⟩ (some 0)))) = true := by
+/-- per row: the isotope/radical part of a molecule atom shares no bit with the charge / count part of any query mask, and the
+    isotope/radical part of a query mask has no bit at any charge position -/
+theorem matcher_fields_disjoint :
+    (periodicTable.all fun r => match r.qmdl with
+      | none => false
+      | some qmdl => (labels r).all fun i => [false, true].all fun rad => charges.all fun c =>
+          (isoRadV3 r.mdl i rad &&& qRest c == 0) && !(qIsoRadV3 qmdl i rad).testBit (chargeBit c)) = true := by
   decide +kernel
+
+/-- the charge / count part of a query mask has, among the charge positions, exactly the bit of its own charge -/
+theorem matcher_charge_positions :
+    (charges.all fun qc => charges.all fun c => (qRest qc).testBit (chargeBit c) == (qc == c)) = true := by decide +kernel
+
+/-- per row: inclusion of the isotope/radical parts is the documented isotope and radical rule, for every pair of labels -/
+theorem matcher_isotope_radical_parts :
+    (periodicTable.all fun r => match r.qmdl with
+      | none => false
+      | some qmdl => (labels r).all fun i => (labels r).all fun j => [false, true].all fun ro => [false, true].all fun rq =>
+          decide (subBits (isoRadV3 r.mdl i ro) (qIsoRadV3 qmdl j rq)) == (isoSel j i && rq == ro)) = true := by
+  decide +kernel
+
+/-- **the accelerated matcher is the documented rule on the whole state space of an element**: for every element, every pair
+    (query state, atom state) of the isotope|none × charge × radical grid, every hydrogen count and every neighbour / heteroatom
+    count, the mask test on the words the two encoders write answers exactly "isotope unspecified or equal, charge equal, radical
+    flag equal" — and so does the reference matcher.  In particular an atom is found by its own query atom and by no query atom
+    that differs from it in isotope, charge or radical flag. -/
+theorem accelerated_matcher_is_documented_rule :
+    ∀ r ∈ periodicTable, ∀ q ∈ states r, ∀ o ∈ states r, ∀ h ∈ hydrogens, ∀ nb ≤ 14, ∀ het ≤ 14,
+      accelFound r q none o h nb het = some (selects q none o h) ∧ pyFound r q none o h nb het = selects q none o h := by
+  intro r hr q hq o ho h hh nb hnb het hhet
+  have mem_states : ∀ {x : Obj}, x ∈ states r → x.isotope ∈ labels r ∧ x.charge ∈ charges := by
+    intro x hx
+    simp only [states, List.mem_flatMap, List.mem_cons, List.not_mem_nil, or_false] at hx
+    obtain ⟨i, hi, c, hc, hoc⟩ := hx
+    rcases hoc with rfl | rfl <;> exact ⟨hi, hc⟩
+  have bool_mem : ∀ b : Bool, b ∈ [false, true] := by intro b; cases b <;> simp
+  obtain ⟨hqi, hqc⟩ := mem_states hq
+  obtain ⟨hoi, hoc⟩ := mem_states ho
+  constructor
+  · obtain ⟨fh, fk⟩ := matcher_count_fields
+    have hnb' := fk nb (List.mem_range.mpr (by omega))
+    have hhet' := fk het (List.mem_range.mpr (by omega))
+    obtain ⟨qmdl, hqm, hacc⟩ := accel_struct r q o h nb het (fh h hh).1 (fh h hh).2 hnb'.1 hnb'.2.1 hhet'.2.2.1 hhet'.2.2.2
+      (matcher_finds_every_state_partial r hr q hq).1 (matcher_finds_every_state_partial r hr o ho).1
+    rw [hacc, coreV3_eq, qV3_eq, selects_eq]
+    congr 1
+    have F1 := matcher_fields_disjoint
+    rw [List.all_eq_true] at F1
+    have F1r := F1 r hr
+    rw [hqm] at F1r
+    simp only [List.all_eq_true, Bool.and_eq_true, beq_iff_eq, Bool.not_eq_true'] at F1r
+    have F3 := matcher_charge_positions
+    simp only [List.all_eq_true, beq_iff_eq] at F3
+    have F2 := matcher_isotope_radical_parts
+    rw [List.all_eq_true] at F2
+    have F2r := F2 r hr
+    rw [hqm] at F2r
+    simp only [List.all_eq_true, beq_iff_eq] at F2r
+    exact core_sub_iff r.mdl qmdl o.isotope q.isotope o.radical q.radical o.charge q.charge
+      (F1r o.isotope hoi o.radical (bool_mem _) q.charge hqc).1
+      (F1r q.isotope hqi q.radical (bool_mem _) o.charge hoc).2
+      (F3 q.charge hqc o.charge hoc)
+      (F2r o.isotope hoi q.isotope hqi o.radical (bool_mem _) q.radical (bool_mem _))
+  · apply pyFound_eq_selects
+    intro h0
+    have hk := isotope_keys_positive r hr
+    simp only [labels, List.mem_cons, List.mem_map] at hqi
+    rw [h0] at hqi
+    rcases hqi with hqi | ⟨k, hk', hk2⟩
+    · cases hqi
+    · injection hk2 with hk2
+      subst hk2
+      have : (keys r.dist).contains 0 = true := by simpa using hk'
+      rw [hk] at this
+      cases this
 
 example : ∃ r ∈ periodicTable, r.sym = "C" ∧ (⟨some 13, -1, true⟩ : Obj) ∈ states r ∧
     accelFound r ⟨some 13, -1, true⟩ none ⟨some 13, -1, true⟩ (some 0) 0 0 = some true ∧
-    accelFound r ⟨some 13, -1, false⟩ none ⟨some 13, -1, true⟩ (some 0) 0 0 = some false := by decide +kernel
+    accelFound r ⟨some 13, -1, false⟩ none ⟨some 13, -1, true⟩ (some 0) 0 0 = some false ∧
+    accelFound r ⟨some 12, -1, true⟩ none ⟨some 13, -1, true⟩ (some 3) 2 1 = some false ∧
+    accelFound r ⟨none, -1, true⟩ none ⟨some 13, -1, true⟩ (some 3) 2 1 = some true := by decide +kernel
 
 /-! ## clause 4: valence tables compile, variants exist -/
 
